@@ -899,8 +899,11 @@ class GroupBy:
         for i in range(n_values):
             slice_ = slice(i * len(group_keys), (i + 1) * len(group_keys))
             results_one_value = results[slice_]
+            result_dtype = results_one_value[0].dtype
+            is_temporal = result_dtype.kind in "mM"
+            # temporal partial results are merged through their integer view
             combined = numba_funcs._build_target_for_groupby(
-                results_one_value[0].dtype,
+                np.dtype("int64") if is_temporal else result_dtype,
                 func_name,
                 len(self._result_index) + 1,
             )
@@ -909,6 +912,8 @@ class GroupBy:
 
             for j, result in enumerate(results_one_value):
                 result = result[:-1]  # ignore null group
+                if is_temporal:
+                    result = result.view("int64")
                 if self._group_key_pointers is None:
                     pointer = slice(0, len(result))  # all but the null group
                 else:
@@ -922,6 +927,8 @@ class GroupBy:
                     other_counts=chunk_count,
                 )
                 count[pointer] += chunk_count
+            if is_temporal and combined.dtype.kind == "i":
+                combined = combined.view(result_dtype)
             individual_results.append((combined, count))
 
         return individual_results
